@@ -10,8 +10,12 @@ enum { VCB_NONE, VCB_SELECT, VCB_FAIL, VCB_MUTATE, VCB_KID, VCB_ALG_ONLY, VCB_MI
 static const char *VCBN[] = {"none", "selects-key+alg", "fails", "mutates-token", "selects-key-by-kid", "sets-alg-without-key", "sets-alg-other-than-the-key's", "selects-key-without-alg"};
 struct VCtx { int kind; int other = 0; };   // other: key-selecting callbacks hand out ANOTHER key of the same kind and algorithm (what a key rotation behind a kid lookup does)
 inline const jwk_item_t *other_oct_key() { static LKey *k = nullptr; if (!k) { JwkOpts o; o.alg = "HS256"; o.priv = true; k = new LKey(jwk_json(pool().get("oct64b"), o)); } return k->item; }
-static int checker_cb(jwt_t *jwt, jwt_config_t *c) {
-  VCtx *x = (VCtx *)c->ctx;
+// a callback registered WITHOUT a context (setcb(obj, cb, NULL) - what the command-line tools do): it finds its state in a global
+inline VCtx &noctx_state() { static VCtx v{VCB_NONE}; return v; }
+static int checker_cb_body(jwt_t *jwt, jwt_config_t *c, VCtx *x);
+static int checker_cb(jwt_t *jwt, jwt_config_t *c) { return checker_cb_body(jwt, c, (VCtx *)c->ctx); }
+static int checker_cb_noctx(jwt_t *jwt, jwt_config_t *c) { if (c->ctx) return 1; return checker_cb_body(jwt, c, &noctx_state()); }
+static int checker_cb_body(jwt_t *jwt, jwt_config_t *c, VCtx *x) {
   switch (x->kind) {
   case VCB_SELECT: c->key = x->other ? other_oct_key() : keytab()[1].lk->item; c->alg = JWT_ALG_HS256; return 0;
   case VCB_FAIL: return 1;
@@ -65,7 +69,7 @@ static std::string cop_str(const COp &o) {
   case C_CLAIM_SET: s += std::string(o.a % 3 == 0 ? "iss" : o.a % 3 == 1 ? "sub" : "exp!") + "," + (o.b & 1 ? "issuer" : "other"); break;
   case C_CLAIM_DEL: s += o.a % 2 ? "sub" : "iss"; break;
   case C_LEEWAY: s += std::string(o.a & 1 ? "nbf" : "exp") + "," + std::to_string(CLEE[o.b % 4]); break;
-  case C_SETCB: s += VCBN[o.a % VCB_N]; if ((o.b % 3) == 2 && (o.a % VCB_N == VCB_SELECT || o.a % VCB_N == VCB_KID)) s += ",other-key-of-the-same-kind"; break;
+  case C_SETCB: s += VCBN[o.a % VCB_N]; if ((o.b % 3) == 2 && (o.a % VCB_N == VCB_SELECT || o.a % VCB_N == VCB_KID)) s += ",other-key-of-the-same-kind"; if ((o.b % 5) == 4 && o.a % VCB_N != VCB_NONE) s += ",registered-without-ctx"; break;
   case C_CLOCK: s += std::to_string(CLK[o.a % 5]); break;
   case C_VERIFY: s += TOKENS[o.a % TOKENS.size()].first; break;
   }
@@ -79,7 +83,10 @@ static VRes capply(CExec &x, const COp &o, bool *is_verify = nullptr) {
   case C_CLAIM_SET: r.ret = jwt_checker_claim_set(c, o.a % 3 == 0 ? JWT_CLAIM_ISS : o.a % 3 == 1 ? JWT_CLAIM_SUB : JWT_CLAIM_EXP, o.b & 1 ? "issuer" : "other"); break;
   case C_CLAIM_DEL: r.ret = jwt_checker_claim_del(c, o.a % 2 ? JWT_CLAIM_SUB : JWT_CLAIM_ISS); break;
   case C_LEEWAY: r.ret = jwt_checker_time_leeway(c, o.a & 1 ? JWT_CLAIM_NBF : JWT_CLAIM_EXP, (time_t)CLEE[o.b % 4]); break;
-  case C_SETCB: { int kind = o.a % VCB_N; x.cx.kind = kind; x.cx.other = (o.b % 3) == 2; r.ret = jwt_checker_setcb(c, kind == VCB_NONE ? nullptr : checker_cb, kind == VCB_NONE ? nullptr : &x.cx); break; }
+  case C_SETCB: { int kind = o.a % VCB_N; x.cx.kind = kind; x.cx.other = (o.b % 3) == 2;
+    if (kind != VCB_NONE && (o.b % 5) == 4) { noctx_state() = x.cx; r.ret = jwt_checker_setcb(c, checker_cb_noctx, nullptr); }   // registered without a context
+    else r.ret = jwt_checker_setcb(c, kind == VCB_NONE ? nullptr : checker_cb, kind == VCB_NONE ? nullptr : &x.cx);
+    break; }
   case C_CLOCK: set_now((time_t)CLK[o.a % 5]); break;
   case C_ERRCLR: jwt_checker_error_clear(c); break;
   case C_VERIFY: { auto &t = TOKENS[o.a % TOKENS.size()]; if (is_verify) *is_verify = true; r.ret = jwt_checker_verify(c, t.first == "NULL" ? nullptr : t.second.c_str()); r.err = jwt_checker_error(c); r.msg = jwt_checker_error_msg(c) ? jwt_checker_error_msg(c) : ""; break; }
